@@ -42,12 +42,34 @@ def sweep(ctx, names, orders_for=None, trials=1, kinds=("smooth", "noise"), Ds=(
                 N = int(Ns[(rng.integers(0, 1000) + t) % len(Ns)])
                 orders = orders_for(name) if orders_for else [2]
                 order = int(orders[rng.integers(0, len(orders))])
+                st0 = rng.bit_generator.state
+                S.FORCED_FLAGS.clear()
+                del S.DRAWN_FLAGS[:]
                 spec = gen(rng, D, N, order)
                 if spec is None:
                     continue
                 kind = kinds[(t + D) % len(kinds)]
                 u = S.random_state(rng, spec.C, D, N, kind)
                 one_step(ctx, spec, u)
+                # every combination of the boolean constructor options this class draws (conservative / single_channel /
+                # spatial-mixing flags / injection on-off), same remaining configuration: a flag that is dropped or
+                # swapped on the way into one interface must not depend on the luck of the seed
+                names_drawn = list(dict.fromkeys(S.DRAWN_FLAGS))
+                if t == 0 and names_drawn and len(names_drawn) <= 3:
+                    import itertools
+                    st1 = rng.bit_generator.state
+                    for combo in itertools.product((False, True), repeat=len(names_drawn)):
+                        rng.bit_generator.state = st0
+                        S.FORCED_FLAGS.clear()
+                        S.FORCED_FLAGS.update(dict(zip(names_drawn, combo)))
+                        sp2 = gen(rng, D, N, order)
+                        if sp2 is None or repr(sorted((k, str(v)) for k, v in sp2.kwargs.items())) == repr(sorted((k, str(v)) for k, v in spec.kwargs.items())):
+                            continue
+                        u2 = S.random_state(rng, sp2.C, D, N, "noise" if D > 1 else kind)
+                        one_step(ctx, sp2, u2)
+                        ctx.bump("flag-combination")
+                    S.FORCED_FLAGS.clear()
+                    rng.bit_generator.state = st1
                 ctx.bump(f"{name}")
                 ctx.bump(f"D{D}")
                 ctx.bump(f"Nmod12={N % 12}")
